@@ -53,6 +53,7 @@ def permute_spec(s):
         bounds={pface(f): v for f, v in s["bounds"].items()},
         thickness={pface(f): v for f, v in s["thickness"].items()},
         eps=pt(s["eps"]), mu=pt(s["mu"]),
+        eps_full=(None if s.get("eps_full") is None else tuple(tuple(s["eps_full"][(i - 1) % 3][(j - 1) % 3] for j in range(3)) for i in range(3))),
         dipoles=[dict(pos=pt(d["pos"]), pol=(d["pol"] + 1) % 3, kind=d["kind"]) for d in s["dipoles"]],
         planes=[dict(axis=(p["axis"] + 1) % 3, index=p["index"], direction=p["direction"], pol=pt(p["pol"])) for p in s["planes"]],
         dets=[dict(lo=pt(d["lo"]), shape=pt(d["shape"])) for d in s["dets"]],
@@ -88,14 +89,29 @@ _SPECS = {
 }
 
 
+_SPECS["full-tensor-dipoles"] = dict(
+    shape=(3, 4, 2), bounds={"min_x": "periodic", "max_x": "periodic", "min_y": "pec", "max_y": "pmc", "min_z": "periodic", "max_z": "periodic"},
+    thickness={}, eps=(2.0, 2.5, 3.0), mu=(1.0, 1.0, 1.0),
+    # all three off-diagonal pairs distinct: each orientation exercises a different pair of the six off-diagonal couplings
+    eps_full=((2.0, 0.3, 0.1), (0.3, 2.5, 0.2), (0.1, 0.2, 3.0)),
+    dipoles=[dict(pos=(1, 1, 0), pol=0, kind="electric"), dict(pos=(2, 3, 1), pol=1, kind="magnetic")], planes=[],
+    dets=[dict(lo=(0, 1, 0), shape=(3, 2, 2))])
+
+
 def cases(tier, seed):
     T = 3 if tier == "quick" else 5
-    names = ["pml-z-dipoles", "pml-x-plane"] if tier == "quick" else list(_SPECS)
-    return [dict(name=n, T=T) for n in names]
+    names = ["pml-z-dipoles", "pml-x-plane", "full-tensor-dipoles"] if tier == "quick" else list(_SPECS)
+    return [dict(name=n, T=(T if "full-tensor" not in n else min(T, 2))) for n in names]
 
 
 def _build(s, T):
-    mat = fdtdx.Material(permittivity=tuple(s["eps"]), permeability=tuple(s["mu"])) if tuple(s["mu"]) != (1.0, 1.0, 1.0) or len(set(s["eps"])) > 1 else fdtdx.Material(permittivity=s["eps"][0])
+    if s.get("eps_full") is not None:
+        return _build_with(s, T, fdtdx.Material(permittivity=tuple(tuple(r) for r in s["eps_full"])))
+    return _build_with(s, T, None)
+
+
+def _build_with(s, T, mat_override):
+    mat = mat_override if mat_override is not None else fdtdx.Material(permittivity=tuple(s["eps"]), permeability=tuple(s["mu"])) if tuple(s["mu"]) != (1.0, 1.0, 1.0) or len(set(s["eps"])) > 1 else fdtdx.Material(permittivity=s["eps"][0])
     extra = []
     for i, d in enumerate(s["dipoles"]):
         extra.append(dipole(f"dip{i}", d["pos"], pol=d["pol"], kind=d["kind"]))
